@@ -1,5 +1,7 @@
 import ChiaModel.Lemmas.TimeLocks
 import ChiaModel.Props.C02
+import ChiaModel.Props.C01
+import ChiaModel.Lemmas.Ephemeral
 /-
 C03 — time-lock aggregation and checking equal per-condition semantics.
 -/
@@ -374,6 +376,42 @@ theorem abs_seconds_refused_only_if_unsat (b : Bundle) (ls : List Lock) (hb : Bu
     · have hv := hall _ ((mem_saOf _ _).mp hm)
       simp only [Lock.holds, decide_eq_true_eq] at hv
       omega
+
+/-! ### relative or birth assertions on a coin created in the same bundle are rejected -/
+
+theorem isEphemeral_flags_irrelevant (st : PState) (spends : List Spend) (g : Spend → Nat) (i : Nat) :
+    isEphemeral st (spends.map (fun sp => { sp with flags := g sp })) i = isEphemeral st spends i := by
+  unfold isEphemeral
+  simp only [List.getElem?_map]
+  cases spends[i]? with
+  | none => rfl
+  | some sp =>
+    simp only [Option.map_some]
+    cases st.spentCoins.idxOf? sp.parentId with
+    | none => rfl
+    | some pidx =>
+      simp only
+      cases spends[pidx]? with
+      | none => rfl
+      | some parent => rfl
+
+/-- **Ephemeral rule.**  In every accepted generator output, a spend that carries a relative lock or a
+birth assertion — including negative relative locks (tautologies) and oversized before-relative ones —
+is not an ephemeral coin: it is not the case that its parent is spent in the same bundle and created
+exactly its (puzzle hash, amount).  Equivalently: such an assertion on a coin created in the same
+bundle makes the bundle invalid. -/
+theorem ephemeral_rule (env : Env) (sigOk : List (Bytes × Bytes) → Bool) (t iter : Sexp) (L cc : Nat) (b : Bundle) (st : PState)
+    (hf : first t = .ok iter) (h : parseSpends env sigOk t L cc = .ok (b, st))
+    (i : Nat) (tree : Sexp) (hi : (listElems iter)[i]? = some tree) (hrel : spendHasRel env.flags tree) :
+    isEphemeral st b.spends i = false := by
+  obtain ⟨iter', ret, left, hf', hl, hv, rfl⟩ := C02.parseSpends_ok h
+  rw [hf] at hf'; injection hf' with hf'; subst hf'
+  obtain ⟨_, hall⟩ := spendLoop_ne env cc iter {} {} _ L ret st left [] hl rfl (by intro i tree hi; simp at hi)
+  simp only [List.nil_append] at hall
+  have hmem := hall i tree hi hrel
+  have hv' := (C01.validateConditions_iff _ _).mp hv
+  have := hv'.2.2.2.2.2.2.2.2.1 i hmem
+  exact this
 
 /-- non-vacuity: a concrete state in which a relative lock holds exactly at the boundary and fails one below -/
 example : (Lock.heightRel 10).holds 110 0 ⟨100, 0⟩ = true ∧ (Lock.heightRel 10).holds 109 0 ⟨100, 0⟩ = false
